@@ -18,7 +18,9 @@ Import ListNotations.
 Open Scope Z_scope.
 
 Definition z (i : int) : Z := Uint63.to_Z i.
-Definition n (i : int) : nat := Z.to_nat (Uint63.to_Z i).
+(* indices and symbol references: anything >= 65536 (e.g. MaxUint32) is clamped to 65536, which is
+   beyond every table of a case file just the same (keeps unary nat small under vm_compute) *)
+Definition n (i : int) : nat := Z.to_nat (Z.min (Uint63.to_Z i) 65536).
 
 (* ---------- raw case data ---------- *)
 Definition rlabels := list (int * int).
